@@ -6,3 +6,8 @@ if ! $PY -c "import hypothesis" 2>/dev/null; then
   $PY -m pip install --no-index --find-links /opt/veriftools/wheels --target ./.deps hypothesis || exit 1
 fi
 $PY -c "import sys; sys.path.insert(0, '.deps'); import hypothesis, numpy; print('hypothesis', hypothesis.__version__, 'numpy', numpy.__version__)"
+# atheris (coverage-guided sub-checks of the thorough tier); optional: a campaign that cannot run is recorded as skipped
+if ! $PY -c "import sys; sys.path.append('.deps'); import atheris" 2>/dev/null; then
+  $PY -m pip install -q --no-index --find-links /opt/veriftools/wheels --target ./.deps atheris 2>/dev/null || echo "atheris not installed (fuzz sub-checks will be skipped)"
+fi
+exit 0
